@@ -19,6 +19,7 @@ import (
 	"bufio"
 	"fmt"
 	"os"
+	"path/filepath"
 	"runtime"
 	"strconv"
 	"strings"
@@ -636,5 +637,64 @@ func TestVerifWrappers(t *testing.T) {
 	}
 	if sFrameSets.Len() != len0s || sFileSeqs.Len() != len0q {
 		t.Fatalf("live-object counts did not return to their starting values: %d/%d vs %d/%d", sFrameSets.Len(), sFileSeqs.Len(), len0s, len0q)
+	}
+
+	// the lookups on disk: only a handle that is handed to the caller occupies a table entry
+	dir, err := os.MkdirTemp("", "verifwrap")
+	if err != nil {
+		t.Fatal(err)
+	}
+	defer os.RemoveAll(dir)
+	for _, n := range []string{"foo.0001.exr", "foo.0002.exr", "foo.0003.exr", "single.txt", ".hid.1.exr"} {
+		if err := os.WriteFile(filepath.Join(dir, n), nil, 0644); err != nil {
+			t.Fatal(err)
+		}
+	}
+	for round := 0; round < 3; round++ {
+		for _, pad := range []bool{false, true} {
+			for _, pat := range []string{dir + "/bar.#.exr", dir + "/foo.#.jpg", dir + "/nothing", "", dir + "/missing/foo.#.exr", dir + "/foo.#"} {
+				id, e := verifFindSequenceOnDisk(pat, 1, pad)
+				if id != 0 {
+					t.Fatalf("FindSequenceOnDisk(%q) matched (handle %d, error %s)", pat, id, e)
+				}
+				if sFrameSets.Len() != len0s || sFileSeqs.Len() != len0q {
+					t.Fatalf("FindSequenceOnDisk(%q) found nothing (error %s) but left a table entry: live counts %d/%d instead of %d/%d",
+						pat, e, sFrameSets.Len(), sFileSeqs.Len(), len0s, len0q)
+				}
+			}
+			id, e := verifFindSequenceOnDisk(dir+"/foo.#.exr", 1, pad)
+			if id == 0 || e != "<nil>" {
+				t.Fatalf("FindSequenceOnDisk on an existing sequence: handle %d, error %s", id, e)
+			}
+			if got := verifStr(FileSequence_FrameRange(id)); got != "1-3" || sFileSeqs.Len() != len0q+1 {
+				t.Fatalf("FindSequenceOnDisk on an existing sequence: range %q, live sequences %d", got, sFileSeqs.Len()-len0q)
+			}
+			FileSequence_Decref(id)
+			if sFileSeqs.Len() != len0q {
+				t.Fatalf("the found sequence was not released by one Decref")
+			}
+		}
+		for _, single := range []bool{false, true} {
+			ids, e := verifFindSequencesOnDisk(dir, round == 1, single, 1)
+			want := 1
+			if single {
+				want++
+			}
+			if round == 1 {
+				want++ // the hidden single-frame sequence
+			}
+			if e != "<nil>" || len(ids) != want || sFileSeqs.Len() != len0q+want {
+				t.Fatalf("FindSequencesOnDisk(single=%v hidden=%v): %d handles, error %s, live sequences %d, want %d", single, round == 1, len(ids), e, sFileSeqs.Len()-len0q, want)
+			}
+			for _, id := range ids {
+				FileSequence_Decref(id)
+			}
+		}
+		if ids, e := verifFindSequencesOnDisk(dir+"/missing", false, true, 1); len(ids) != 0 || e == "<nil>" {
+			t.Fatalf("FindSequencesOnDisk on a missing directory: %d handles, error %s", len(ids), e)
+		}
+		if sFrameSets.Len() != len0s || sFileSeqs.Len() != len0q {
+			t.Fatalf("after the disk lookups the live-object counts are %d/%d instead of %d/%d", sFrameSets.Len(), sFileSeqs.Len(), len0s, len0q)
+		}
 	}
 }
